@@ -23,6 +23,7 @@ are replayed on the real library by harness/c18.cpp, see notes/C18.md).
 -/
 import YaclibModel.Proofs.FiberSyncWitness
 import YaclibModel.Proofs.FiberSyncBridge
+import YaclibModel.Proofs.FiberSyncBridgeRepaired
 import YaclibModel.Extracted.Kernels
 import YaclibModel.Model.Skeletons
 
@@ -587,10 +588,10 @@ end Shared
 /-! ## thread::join, sleep_for, thread-local pointers (model `Th`) -/
 section Thread
 open Th
-variable {n : Nat} {s : State}
+variable {fx : Bool} {n : Nat} {s : State}
 
 /-- `join` returns only after the thread function of the joined fiber has returned — and that fiber never runs again -/
-theorem join_after_finish (h : Reachable n s) {f j : Fid} {s' : State} (hs : Step s (.joinRet f j) s') :
+theorem join_after_finish (h : Reachable fx n s) {f j : Fid} {s' : State} (hs : Step s (.joinRet f j) s') :
     s.fin j = true ∧ s.pc j = .done := by
   have hi := inv_reachable h
   match hs with
@@ -622,29 +623,46 @@ theorem tls_per_fiber_partial {f : Fid} {s' : State} :
 /-- D14: `q = p` between two thread-local pointers writes the process-wide default of `q`: a fiber that never touched
     `q` reads the value another fiber copied.  Replayed: scenario `tls f0=P1,C,GQ,E,GQ f1=GQ,P2,E,GQ`. -/
 theorem tls_copy_violated_witness :
-    ∃ s s', Reachable 2 s ∧ Step s (.getQ 1 (some 1)) s' ∧ s.lastQ 1 = none ∧ s.slot1 1 = none := by
-  have h := reach_run (n := 2) Reachable.init (ls := [.setP 0 1, .copyQP 0]) (s' := _) rfl
+    ∃ s s', Reachable false 2 s ∧ Step s (.getQ 1 (some 1)) s' ∧ s.lastQ 1 = none ∧ s.slot1 1 = none := by
+  have h := reach_run (fx := false) (n := 2) Reachable.init (ls := [.setP 0 1, .copyQP 0]) (s' := _) rfl
   exact ⟨_, _, h, next_sound (l := .getQ 1 (some 1)) (s' := _) rfl, rfl, rfl⟩
 
 /-- D14, second half: a fiber that has assigned `q` itself does not see its own later `q = p` (the copy went to the
     default, the fiber's own entry wins).  Replayed: scenario `tls f0=PQ3,GQ,P1,C,GQ f1=GQ,PQ2,GQ`. -/
 theorem tls_copy_lost_violated_witness :
-    ∃ s s', Reachable 1 s ∧ Step s (.getQ 0 (some 3)) s' ∧ s.lastQ 0 = some (some 1) := by
-  have h := reach_run (n := 1) Reachable.init (ls := [.setQ 0 3, .setP 0 1, .copyQP 0]) (s' := _) rfl
+    ∃ s s', Reachable false 1 s ∧ Step s (.getQ 0 (some 3)) s' ∧ s.lastQ 0 = some (some 1) := by
+  have h := reach_run (fx := false) (n := 1) Reachable.init (ls := [.setQ 0 3, .setP 0 1, .copyQP 0]) (s' := _) rfl
   exact ⟨_, _, h, next_sound (l := .getQ 0 (some 3)) (s' := _) rfl, rfl⟩
 
 /-- D13: thread-local pointers of different pointee types share slot indices: a never-assigned `long*` reads what the
     fiber stored into an `int*`.  Replayed: scenario `tls f0=GL,P1,GL f1=GL,G`. -/
-theorem tls_alias_violated_witness : ∃ s s', Reachable 1 s ∧ Step s (.getL 0 (some 1)) s' := by
-  have h := reach_run (n := 1) Reachable.init (ls := [.setP 0 1]) (s' := _) rfl
+theorem tls_alias_violated_witness : ∃ s s', Reachable false 1 s ∧ Step s (.getL 0 (some 1)) s' := by
+  have h := reach_run (fx := false) (n := 1) Reachable.init (ls := [.setP 0 1]) (s' := _) rfl
   exact ⟨_, _, h, next_sound (l := .getL 0 (some 1)) (s' := _) rfl⟩
 
-theorem validator_sound_Th {l : Label} {s' : State} (h : Reachable n s) (hn : next s l = some s') : Reachable n s' :=
+/-- the proposed repairs of D13 / D14 (model flag `fixed`) are sufficient: `q.Get()` returns what this fiber last assigned
+    to `q` — by `q = ptr` or by `q = p` — or null if it never did, whatever other fibers do; a never-assigned pointer of
+    another type reads null -/
+theorem tls_per_fiber_repaired (h : Reachable true n s) {f : Fid} {r : Option Nat} {s' : State} :
+    (Step s (.getQ f r) s' → (∀ v, s.lastQ f = some v → r = v) ∧ (s.lastQ f = none → r = none)) ∧
+    (Step s (.getL f r) s' → r = none) := by
+  have hi := invF_reachable h
+  constructor <;> intro hs
+  · match hs with
+    | .getQ .. =>
+        refine ⟨fun v hv => ?_, fun hn => ?_⟩
+        · have := hi.q_own f v hv
+          cases v <;> simp_all [read1, hi.def1]
+        · simp [read1, hi.q_none f hn, hi.def1]
+  · match hs with
+    | .getL .. => simp [readL, hi.hfx]
+
+theorem validator_sound_Th {l : Label} {s' : State} (h : Reachable fx n s) (hn : next s l = some s') : Reachable fx n s' :=
   .step h (next_sound hn)
 
 /-- a join that has to wait: f0 joins f1 while it runs, f1 finishes, the join returns -/
-example : ∃ s, Reachable 2 s ∧ s.pc 0 = .idle ∧ s.fin 1 = true := by
-  have h := reach_run (n := 2) Reachable.init (ls := [.joinStart 0 1, .work 1, .finish 1, .joinRet 0 1]) (s' := _) rfl
+example : ∃ s, Reachable false 2 s ∧ s.pc 0 = .idle ∧ s.fin 1 = true := by
+  have h := reach_run (fx := false) (n := 2) Reachable.init (ls := [.joinStart 0 1, .work 1, .finish 1, .joinRet 0 1]) (s' := _) rfl
   exact ⟨_, h, rfl, rfl⟩
 
 end Thread
@@ -814,6 +832,110 @@ theorem recheck_table : Extracted.FiberSync.methods.filter (fun m => m.2.2.2 = "
   decide
 
 end Yaclib.Props.C18.Bridge
+
+/-! ## the repaired variants and the repaired code
+`Extracted/FiberSyncRepaired.lean` is the (golden) output of the same translator on /repo with
+notes/C18_proposed_patches.diff applied.  These theorems pin what the `fixed` / `patch` / `loop` variants of the models
+describe: every wait re-evaluates its condition after the wake-up (`…_resume` = the entry function), `unlock` of the
+recursive mutex notifies, readers wait on the shared queue, `unlock` of the shared mutex wakes all readers and one
+writer, the exclusive timed acquisition ends in `LockHelper()`. -/
+namespace Yaclib.Props.C18.BridgeRepaired
+open Yaclib.FiberSync Yaclib.Extracted.FiberSyncRepaired
+
+section RMx
+open Mx
+/-- repaired `TimedWaitHelper`: rules `tlfFast` / `tlfPark`, and after the wake-up `tlfRecheckAcq` / `tlfRepark`
+    (`_occupied` is looked at again) or the timeout -/
+theorem repaired_Mx_timed (s : State) (f : Fid) (t d j req : Nat) :
+    TimedMutex.TimedWaitHelper (coreR s) =
+      (if s.occupied then .wait (coreR (doTlfPark s f t d j)) "_queue" true []
+       else .ret (coreR (acquire s f)) (some true) []) ∧
+    TimedMutex.TimedWaitHelper_resume (coreR s) true =
+      (if s.occupied then .wait (coreR (doTlfRepark s f req j)) "_queue" true []
+       else .ret (coreR (acquire s f)) (some true) []) ∧
+    TimedMutex.TimedWaitHelper_resume (coreR s) false = .ret (coreR (doTlfTimeout s f t)) (some false) [] := by
+  refine ⟨?_, ?_, ?_⟩ <;> by_cases ho : s.occupied = true <;>
+    simp [TimedMutex.TimedWaitHelper, TimedMutex.TimedWaitHelper_resume, coreR, ho, doTlfPark, doTlfRepark, doTlfTimeout, acquire]
+end RMx
+
+section RRm
+open Rm
+/-- repaired `RecursiveMutex::lock`: the continuation after the wait is the loop again (rules `lockRecheckAcq` / `lockRepark`) -/
+theorem repaired_Rm_lock_rechecks (c : RecursiveMutex) (me : Nat) (ready : Bool) :
+    RecursiveMutex.lock_resume c me ready = RecursiveMutex.lock c me := rfl
+
+theorem repaired_Rm_lock (s : State) (f : Fid) :
+    RecursiveMutex.lock (coreR s) f =
+      if Free s f then .ret (coreR (lockHelper s f)) none [] else .wait (coreR (doPark s f)) "_queue" false [] := by
+  by_cases hc : s.count = 0
+  · simp [Free, coreR, hc, lockHelper, RecursiveMutex.lock]
+  · by_cases ho : s.owner = some f
+    · simp [Free, coreR, hc, ho, lockHelper, RecursiveMutex.lock]
+    · simp [Free, coreR, hc, ho, doPark, RecursiveMutex.lock]
+
+/-- repaired `unlock`: one waiter is notified when the count drops to 0 (rule `unlockPatched`) -/
+theorem repaired_Rm_unlock (s : State) (f : Fid) (w : Option Fid) :
+    RecursiveMutex.unlock (coreR s) =
+      .ret (coreR (notifyR (doUnlock s f) w)) none (if s.count - 1 = 0 then [.one "_queue"] else []) := by
+  simp only [coreR_notifyR]
+  by_cases h : s.count - 1 = 0 <;> simp [RecursiveMutex.unlock, coreR, doUnlock, h]
+
+/-- repaired `RecursiveTimedMutex::TimedWaitHelper` after the wake-up: `tlfRecheckAcq` / `tlfRepark` / the timeout -/
+theorem repaired_Rm_timed_resume (s : State) (f : Fid) (t req j : Nat) :
+    RecursiveTimedMutex.TimedWaitHelper_resume (coreR s) f true =
+      (if Free s f then .ret (coreR (lockHelper s f)) (some true) []
+       else .wait (coreR (doTlfRepark s f req j)) "_queue" true []) ∧
+    RecursiveTimedMutex.TimedWaitHelper_resume (coreR s) f false = .ret (coreR (doTlfTimeout s f t)) (some false) [] := by
+  constructor
+  · by_cases hc : s.count = 0
+    · simp [Free, coreR, hc, lockHelper, RecursiveTimedMutex.TimedWaitHelper_resume]
+    · by_cases ho : s.owner = some f
+      · simp [Free, coreR, hc, ho, lockHelper, RecursiveTimedMutex.TimedWaitHelper_resume]
+      · simp [Free, coreR, hc, ho, doTlfRepark, RecursiveTimedMutex.TimedWaitHelper_resume]
+  · simp [coreR, doTlfTimeout, RecursiveTimedMutex.TimedWaitHelper_resume]
+end RRm
+
+section RSm
+open Sm
+/-- repaired `lock` / `lock_shared`: the continuation after the wait is the loop again; readers wait on the shared queue -/
+theorem repaired_Sm_rechecks (c : SharedMutex) (ready : Bool) :
+    SharedMutex.lock_resume c ready = SharedMutex.lock c ∧ SharedMutex.lock_shared_resume c ready = SharedMutex.lock_shared c :=
+  ⟨rfl, rfl⟩
+
+theorem repaired_Sm_lock_shared (s : State) (f : Fid) :
+    SharedMutex.lock_shared (coreR s) =
+      if XHeld s then .wait (coreR (parkS s f .sParked)) "_shared_queue" false []
+      else .ret (coreR (sharedHelper s f)) none [] := by
+  by_cases ho : s.occ = true <;> by_cases he : s.excl = true <;>
+    simp [XHeld, SharedMutex.lock_shared, coreR, ho, he, parkS, sharedHelper]
+
+/-- repaired `unlock`: all readers and one writer are notified (rule `unlockF`) -/
+theorem repaired_Sm_unlock (s : State) (f : Fid) (w : Option Fid) :
+    SharedMutex.unlock (coreR s) = .ret (coreR (doUnlockF s f w)) none [.all "_shared_queue", .one "_exclusive_queue"] := by
+  simp only [doUnlockF, coreR_notifyE, coreR_notifyAllS]; rfl
+
+/-- repaired `TimedWaitHelper`: the exclusive request ends in `LockHelper()` (rules `txFastF`, `txRecheckAcq`), and both
+    kinds look at the fields again after the wake-up -/
+theorem repaired_Sm_timed (s : State) (f : Fid) (t d j req : Nat) :
+    SharedTimedMutex.TimedWaitHelper (coreR s) true =
+      (if s.occ then .wait (coreR { parkE s f (.txParked (t + d) (t + d + j)) with now := t }) "_exclusive_queue" true []
+       else .ret (coreR (lockHelper s f)) (some true) []) ∧
+    SharedTimedMutex.TimedWaitHelper_resume (coreR s) true true =
+      (if s.occ then .wait (coreR (parkE s f (.txParked req (req + j)))) "_exclusive_queue" true []
+       else .ret (coreR (lockHelper s f)) (some true) []) ∧
+    SharedTimedMutex.TimedWaitHelper_resume (coreR s) false true =
+      (if XHeld s then .wait (coreR (parkS s f (.tsParked req (req + j)))) "_shared_queue" true []
+       else .ret (coreR (sharedHelper s f)) (some true) []) := by
+  refine ⟨?_, ?_, ?_⟩ <;> by_cases ho : s.occ = true <;> by_cases he : s.excl = true <;>
+    simp [XHeld, SharedTimedMutex.TimedWaitHelper, SharedTimedMutex.TimedWaitHelper_resume, coreR, ho, he, parkE, parkS,
+      sharedHelper, lockHelper]
+end RSm
+
+/-- in the repaired code every blocking method re-checks -/
+theorem repaired_recheck_table :
+    Extracted.FiberSyncRepaired.methods.filter (fun m => m.2.2.1 = true ∧ m.2.2.2 ≠ "loop") = [] := by decide
+
+end Yaclib.Props.C18.BridgeRepaired
 
 /-! ## tie to the source (T2): the functions these models were written from are unchanged.
 `Extracted/Kernels.lean` is regenerated from /repo on every check run; `Skeletons.lean` is the copy the models were
